@@ -884,7 +884,16 @@ func (s *S3Proxy) HeadObject(ctx context.Context, input *s3.HeadObjectInput) (*s
 	}
 
 	out, err := s.client.HeadObject(ctx, input)
-	return out, handleError(err)
+	if err != nil {
+		if lastMod, ok := deleteMarkerFromError(err); ok {
+			return &s3.HeadObjectOutput{
+				DeleteMarker: aws.Bool(true),
+				LastModified: lastMod,
+			}, handleError(err)
+		}
+		return nil, handleError(err)
+	}
+	return out, nil
 }
 
 func (s *S3Proxy) GetObject(ctx context.Context, input *s3.GetObjectInput) (*s3.GetObjectOutput, error) {
@@ -942,6 +951,12 @@ func (s *S3Proxy) GetObject(ctx context.Context, input *s3.GetObjectInput) (*s3.
 
 	output, err := s.client.GetObject(ctx, input)
 	if err != nil {
+		if lastMod, ok := deleteMarkerFromError(err); ok {
+			return &s3.GetObjectOutput{
+				DeleteMarker: aws.Bool(true),
+				LastModified: lastMod,
+			}, handleError(err)
+		}
 		return nil, handleError(err)
 	}
 
@@ -1548,6 +1563,24 @@ func (s *S3Proxy) ListBucketsAndOwners(ctx context.Context) ([]s3response.Bucket
 	}
 
 	return buckets, nil
+}
+
+// deleteMarkerFromError reports whether the backend's error response said
+// that the object is a delete marker, and when that marker was written, so
+// that the frontend can tell the client the same.
+func deleteMarkerFromError(err error) (*time.Time, bool) {
+	var re *awshttp.ResponseError
+	if !errors.As(err, &re) || re.Response == nil || re.Response.Response == nil {
+		return nil, false
+	}
+	if re.Response.Header.Get("x-amz-delete-marker") != "true" {
+		return nil, false
+	}
+	lastMod, perr := http.ParseTime(re.Response.Header.Get("Last-Modified"))
+	if perr != nil {
+		return nil, false
+	}
+	return &lastMod, true
 }
 
 func handleError(err error) error {
